@@ -33,7 +33,7 @@ Definition is_valid (c : vcase) (j : json) : bool :=
   match model_schema c with Some s => valid_variables s (op_vars c) j | None => false end.
 
 (* what the harness calls a valid assignment is one *)
-Definition spec_gen (c : vcase) : bool :=
+Definition corr_spec (c : vcase) : bool :=
   forallb (fun v => if String.eqb (vv_label v) "valid" then is_valid c (vv_input v) else true) (vc_vectors c).
 
 Definition same_set (a b : list string) : bool :=
